@@ -22,7 +22,7 @@ CHECKS = {
    text="CreateUE called as main() calls it for every index 0..9999 from 745 initial IMSIs (leading zeros, 2-/3-digit MNC, 11..15 digits, MSINs near exhaustion and around every power of ten of the MSIN so that a carry into every digit position occurs) ; pairwise distinctness of SUPIs and RAN-UE-NGAP-IDs, PLMN prefix, digit count, credentials and capability bits (all 4x4 algorithm pairs) checked on every context.",
    note="IMSI shapes are an alphabet, indices exhaustive"),
  "C17": dict(cat="exploration", sec="5.17", tech="exhaustive enumeration of whole input domains (2^24 AMF ids, 2^24 SDs, 1.1M PLMNs, all PCO lists <=3 units) with reference encoders and inverse checks",
-   text="Whole-domain sweeps where the domain is finite (PLMN, AMF-ID, SST, SD) and structured alphabets for addresses and PCO lists, each compared with the 3GPP encoding written independently and with inverse(conversion(x)) == x.",
+   text="Whole-domain sweeps where the domain is finite (PLMN, AMF-ID, SST, SD; all 2^32 IPv4 addresses in thorough) and structured alphabets for addresses and PCO lists, each compared with the 3GPP encoding written independently and with inverse(conversion(x)) == x.",
    note="IPv4-mapped IPv6 addresses judged at the octet level; PCO ids/contents from a small alphabet"),
  "C03": dict(cat="exploration", sec="5.3", tech="deviation-bounded exhaustive enumeration of NGAP values (all single deviations per message type; pairs in thorough) against an independent X.691 encoder",
    text="For each of the ~100 NGAP message and transfer-container types the all-present default value and every value that moves <=1 (quick) / <=2 (thorough) leaves to another member of its boundary alphabet, plus a complete primitive sweep over synthetic types (every range size 1..257 and the large ranges, every bit offset), negative (out-of-constraint) values that must be refused, and fragmented lengths; every library encoding is compared byte for byte with an independent ALIGNED PER encoder driven by a frozen schema.",
@@ -36,10 +36,10 @@ CHECKS = {
  "C14": dict(cat="exploration", sec="5.14", tech="exhaustive enumeration of all short octet strings and of all single mutations of reference encodings, each decoded in a resource-limited shard process",
    text="Every octet string of length <=2 (<=3 in thorough) and, for a reference encoding of every message type, every prefix, every single-octet substitution, every bit flip, adversarial two-octet length forms and every pair of octets up to 3 (thorough: 6) positions apart replaced by every pair from an adversarial alphabet are decoded by ngap.Decoder in shard processes with an address-space limit and a watchdog: no panic, allocation below 64 MiB per call, return within a 10 s horizon.",
    note="coverage-guided fuzzing (named in the property's quantifier) is another technique family and not used; allocation measured per batch and per call on suspicion"),
- "C06": dict(cat="exploration", sec="5.6", tech="exhaustive enumeration of send histories (all operation sequences up to depth 3/4 from 7 starting COUNTs x 6 algorithm pairs) judged by an independent receiver",
+ "C06": dict(cat="model_checking", sec="5.6", tech="exhaustive enumeration of send histories (all operation sequences up to depth 3/4 from 7 starting COUNTs x 6 algorithm pairs) judged by an independent receiver",
    text="Every history of up to 3 (4 in thorough) sends over 19 operations (message x header type x new-context flag), from starting COUNTs placed just before every wrap, for all six algorithm pairs, plus 600- and 65538-send linear histories and the counter type over all 2^24 values; an independent receiver (refnas/refcrypto) must verify the MAC under COUNT n-1, find the payload ciphered only under header types 2/4 and recover exactly the submitted plain message.",
    note="refcrypto anchors as C07; two fixed key values (no key-dependent branch in the protection logic)"),
- "C10": dict(cat="exploration", sec="5.10", tech="exhaustive enumeration of downlink histories (all sequences up to depth 3/4 incl. skipped and wrapping sequence numbers) produced by an independent AMF-side protector",
+ "C10": dict(cat="model_checking", sec="5.10", tech="exhaustive enumeration of downlink histories (all sequences up to depth 3/4 incl. skipped and wrapping sequence numbers) produced by an independent AMF-side protector",
    text="An independent AMF side protects every history of up to 3 (4) downlink messages over 25 operations (message x header type 0..4 x COUNT step +1/+2/+200/+255) for six algorithm pairs and five starting COUNTs, plus 800-message runs; the UE's NASDecode / GetNasPdu must return a message that re-encodes to exactly the protected plain bytes and its DL COUNT must equal the AMF's.",
    note="downlink plain messages hand-encoded from TS 24.501 clause 8; UE and AMF start from the same COUNT"),
  "C12": dict(cat="exploration", sec="5.12", tech="exhaustive enumeration of QoS-rule lengths, optional-IE subsets and bit-rate octet counts, plus all short tails / prefixes / substitutions under a watchdog in shard processes",
@@ -49,7 +49,7 @@ CHECKS = {
    text="The unmodified main() and procedures run as a process against an explicit-state reference AMF (written from TS 38.413/24.501/33.501 on independent codecs) over a socketpair; every configuration/AMF-choice vector with <=1 (quick) / <=2 (thorough) deviations is executed; the model must accept every uplink message in its state and end with every UE REGISTERED, the process must exit 0 with the banner. Every model trace is by construction validated against the implementation; states and transitions of the model visited are counted.",
    note="reference AMF follows the Open5GS flow; Sleep is a no-op in the emulator build (sound because the AMF is reactive and sequential; replayed with real sleeps in C19 thorough); hook: tag verif replaces the SCTP dial by an inherited socket"),
  "C02": dict(cat="model_checking", sec="5.2", tech="explicit-state reference AMF/SMF model executed against the real emulator process; full product of repetition counts, deviation-bounded assigned values, in-process return values",
-   text="Full product of the five repetition counts in {0..2}^5 (quick) / {0..3}^5 (thorough) plus 16-/20-UE vectors and a 260-UE vector (520 and 300 in thorough: every per-run 8-bit counter wraps), all <=2-deviation vectors of network-assigned values, and in-process NGSetup+Register+EstablishPDU over the address/TEID product; the model checks prerequisites, identifiers, PSI consistency and range, distinct SUPIs, uplink COUNT uniqueness and MACs on every message and the final state of every UE.",
+   text="Full product of the five repetition counts in {0..2}^5 (quick) / {0..4}^5 (thorough) plus 16-/20-UE vectors and a 260-UE vector (520 and 300 in thorough: every per-run 8-bit counter wraps), all <=2-deviation vectors of network-assigned values, and in-process NGSetup+Register+EstablishPDU over the address/TEID product; the model checks prerequisites, identifiers, PSI consistency and range, distinct SUPIs, uplink COUNT uniqueness and MACs on every message and the final state of every UE.",
    note="AMF keeps the AMF-UE-NGAP-ID across a Service Request and does not check the hard-coded 5G-S-TMSI/ngKSI; the AMF re-activates the UE's session in the ICS request answering a Service Request"),
  "C18": dict(cat="exploration", sec="5.18", tech="deviation-bounded exhaustive enumeration of configuration files and of all argument vectors of length 0..3; wire values observed by the reference AMF",
    text="Configuration files are generated from typed values over an alphabet per documented key (24 keys; quoting styles, escapes, empty strings, numeric extremes, both key orders), all files with <=1 (quick) / <=2 (thorough) deviations; GetConfiguration must return the typed values key by key; the values observable on the wire (IMSI, PLMN, gNB id/length/name, K/OP/OPc, S-NSSAI, gnb_gtp_ip, repetition counts) are checked by the reference AMF in closed-system runs; all 259 argument vectors of length 0..3 over a 6-symbol alphabet are run at process level (banner, usage, messages reaching the AMF).",
@@ -57,7 +57,7 @@ CHECKS = {
  "C19": dict(cat="fault_enumeration", sec="5.19", tech="exhaustive enumeration of fault points (every downlink message index x 9 fault kinds x count vectors) on the real process under a syscall monitor",
    text="For each count vector every downlink message index of the fault-free conversation is combined with {peer closes instead, ff ff ff, 00, truncated message, 2047/2048/4096 octets of ff (around the emulator's read buffer), the message with its PDU choice index destroyed, with its outer length determinant beyond the end}; the real process runs under strace, whose sendmsg/recvmsg history is the ground truth of what the emulator consumed; once it consumed the fault it must exit non-zero without the banner and without sending again, and it must always terminate within the horizon.",
    note="strace as monitor; the message after Registration Complete is exempt for garbage (per the property); faulty octets that the reference codec still decodes are out of scope; a run that outlives the horizon has its whole process group killed; thorough replays conversations with real sleeps to validate the time shim"),
- "C20": dict(cat="exploration", sec="5.20", tech="controlled cooperative scheduler over the instrumented real code: exhaustive enumeration of schedules up to a preemption bound, plus a separate free-running -race pass",
+ "C20": dict(cat="model_checking", sec="5.20", tech="controlled cooperative scheduler over the instrumented real code: exhaustive enumeration of schedules up to a preemption bound, plus a separate free-running -race pass",
    text="The repository packages are rebuilt through an overlay that inserts a yield in front of every statement that reads or writes a package-level variable mutated at run time (found by a two-pass AST analysis of the current tree: assignments also through index/field/pointer, inc/dec, address-of, method calls on visible variables, copy/append destinations, cross-package), a coarse yield at the entry of every function of the instrumented packages, and replaces sync by a scheduler-aware version (Mutex/RWMutex/Once, and a Pool that shares as much as sync.Pool's contract allows); for all 66 pairs of 11 operation kinds (each thread on its own UE context, different message types per thread) every schedule with <=2 preemptions (quick) / <=3 and triples (thorough) over the first 4/10 dynamic instances of each statement site and the first 1/2 of each function entry per thread is executed and each thread's output compared with the sequential one; deadlocks are violations. Because cooperative hand-offs hide races from the detector, the same bodies also run free on 2/8/64 goroutines in a binary built with -race.",
    note="only sequentially consistent interleavings at the inserted points; the -race pass is a dynamic detector (not an enumeration); G up to 64 applies to the free-running pass only"),
  "C08": dict(cat="exploration", sec="5.8", tech="exhaustive enumeration of optional-IE subsets (all 2^k for k<=17; every k in thorough), IE lengths, contents and wire orders per message type, with round-trip oracles",
